@@ -90,14 +90,16 @@ impl<T, D: Data<Elem = f64>> Fit<ArrayBase<D, Ix2>, T, ReductionError> for PcaPa
         let x = x - &mean;
 
         // estimate Singular Value Decomposition
+        // (singular values, largest first, and the matching right-singular vectors as rows)
         #[cfg(feature = "blas")]
-        let result =
-            TruncatedSvd::new(x, TruncatedOrder::Largest).decompose(self.embedding_size)?;
+        let (sigma, mut v_t) = {
+            let result =
+                TruncatedSvd::new(x, TruncatedOrder::Largest).decompose(self.embedding_size)?;
+            let (_, sigma, v_t) = result.values_vectors();
+            (sigma, v_t)
+        };
         #[cfg(not(feature = "blas"))]
-        let result = TruncatedSvd::new_with_rng(x, Order::Largest, SmallRng::seed_from_u64(42))
-            .decompose(self.embedding_size)?;
-        // explained variance is the spectral distribution of the eigenvalues
-        let (_, sigma, mut v_t) = result.values_vectors();
+        let (sigma, mut v_t) = leading_svd(x, self.embedding_size)?;
 
         // cut singular values to avoid numerical problems
         let sigma = sigma.mapv(|x| x.max(1e-8));
@@ -117,6 +119,33 @@ impl<T, D: Data<Elem = f64>> Fit<ArrayBase<D, Ix2>, T, ReductionError> for PcaPa
             mean,
             n_samples: dataset.nsamples(),
         })
+    }
+}
+
+/// Leading `num` singular values and right-singular vectors (as rows) of the centred records
+///
+/// LOBPCG iterates in a subspace of three times the block size and needs the block to be small
+/// compared to the problem; otherwise it does not converge (or breaks down) and returns whatever
+/// approximation it has. Following SciPy, problems with less than five times as many dimensions
+/// as requested components are solved densely instead: with a block as large as the problem the
+/// initial Rayleigh-Ritz step already is the full decomposition, no iteration is needed, and the
+/// leading `num` pairs are kept.
+#[cfg(not(feature = "blas"))]
+pub(crate) fn leading_svd(x: Array2<f64>, num: usize) -> Result<(Array1<f64>, Array2<f64>)> {
+    let dim = usize::min(x.nrows(), x.ncols());
+    let solver = TruncatedSvd::new_with_rng(x, Order::Largest, SmallRng::seed_from_u64(42));
+    if dim < 5 * num {
+        let result = solver.maxiter(0).decompose(dim)?;
+        let (_, sigma, v_t) = result.values_vectors();
+        let keep = usize::min(num, sigma.len());
+        Ok((
+            sigma.slice_move(ndarray::s![..keep]),
+            v_t.slice_move(ndarray::s![..keep, ..]),
+        ))
+    } else {
+        let result = solver.decompose(num)?;
+        let (_, sigma, v_t) = result.values_vectors();
+        Ok((sigma, v_t))
     }
 }
 
